@@ -141,6 +141,10 @@ def cases(tier):
         add("outer_prod(scalar operand)", lambda x, y: cplx.outer_prod(x, y), [(), (n,)], exc=ValueError)
         add("kronecker_prod(vector operand)", lambda x, y: cplx.kronecker_prod(x, y), [(n,), (n, n)], exc=ValueError)
     add("inner_prod(scalar,scalar)", lambda x, y: cplx.inner_prod(x, y), [(), ()], lambda x, y: np.conj(x) * y)
+    add("make_complex(rank-0 ndarray)", lambda: cplx.make_complex(np.array(1.5 - 2j)), [], lambda: np.array(1.5 - 2j))
+    add("make_complex(rank-1 ndarray of one entry)", lambda: cplx.make_complex(np.array([1.5 - 2j])), [], lambda: np.array([1.5 - 2j]))
+    add("inner_prod of two rank-0 ndarrays", lambda: cplx.inner_prod(cplx.make_complex(np.array(1.5 - 2j)), cplx.make_complex(np.array(0.5 + 1j))), [],
+        lambda: np.conj(np.array(1.5 - 2j)) * np.array(0.5 + 1j))
     add("make_complex(ndarray)", lambda: cplx.make_complex(np.array([[1 + 2j, 0.5j], [3.0, -1 - 1j]])), [],
         lambda: np.array([[1 + 2j, 0.5j], [3.0, -1 - 1j]]))
     return C
